@@ -192,6 +192,10 @@ class EzspRig:
                     else:
                         r = await self.ezsp.getValue(t.EzspValueId.VALUE_FREE_BUFFERS)
                     val = self._val(cmd, list(r))
+                elif cmd == "version":
+                    # the raw command (EZSP.version is the negotiation built on it), issued the way the negotiation issues it
+                    r = await self.ezsp._command("version", desiredProtocolVersion=self.version)
+                    val = 0
                 elif cmd in ("getNodeId", "readCounters", "readAndClearCounters", "nop"):
                     r = await getattr(self.ezsp, cmd)()
                     val = self._val(cmd, list(r))
